@@ -61,8 +61,11 @@ func (m *streeModel) childAccesses(fn *ssa.Function) []childAccess {
 			visit(d)
 		}
 	}
-	if len(fn.Blocks) > 0 {
-		visit(fn.Blocks[0])
+	// closures too: a loop written as range-over-func (for … := range slices.Backward(path)) has its body there
+	for _, f := range withClosures(fn) {
+		if len(f.Blocks) > 0 {
+			visit(f.Blocks[0])
+		}
 	}
 	return out
 }
@@ -392,7 +395,7 @@ func runC01(c *Ctx) {
 	c.rule("R-CLONE-FRESH", 5, "clone's copies link only to copies; Tree.Clone's root is node.clone(root)")
 	c.rule("R-YIELD", 4, "in-order iteration is stoppable")
 	c.rule("R-ORIENT", 12, "descents and one-sided navigation agree with the orientation of the in-order walk")
-	c.rule("R-RELINK", 2, "popMinRight re-attaches the removed node's large-side subtree where the removed node was linked")
+	c.rule("R-RELINK", 1, "popMinRight re-attaches the removed node's large-side subtree where the removed node was linked")
 	c.rule("R-ROOT-FLOW", 5, "the root stored by Add/Replace/Remove derives from the result of the modification (through rewrite at most), on every path where something changed")
 	c.rule("R-NEW-DEDUP", 2, "New sorts (or checks sortedness) and de-duplicates on every path to the bulk loader")
 	m := buildStreeModel(c)
@@ -667,7 +670,8 @@ func runC04(c *Ctx) {
 		}
 		return nil, false
 	}
-	guardedAt := func(b *ssa.BasicBlock, use ssa.Instruction, v ssa.Value, f *types.Var) bool {
+	var guardedAt func(b *ssa.BasicBlock, use ssa.Instruction, v ssa.Value, f *types.Var) bool
+	guardedAt = func(b *ssa.BasicBlock, use ssa.Instruction, v ssa.Value, f *types.Var) bool {
 		for _, cm := range cmpsAt(b) {
 			if cm.Op != token.NEQ || !isNilConst(cm.Y) {
 				continue
@@ -682,6 +686,66 @@ func runC04(c *Ctx) {
 				if eff.noFieldKillBetween(ld, use, f) {
 					return true
 				}
+			}
+		}
+		return false
+	}
+	// nonzeroImpliesTree: every return of cal with a possibly non-zero integer result is under recv.f != nil
+	// (e.g. Map.Len: `if m.m == nil { return 0 }; return m.m.Len()`), so  cal(m) != 0  implies  m.m != nil
+	nonzeroImpliesTree := func(cal *ssa.Function, f *types.Var) bool {
+		if cal == nil || cal.Blocks == nil || len(cal.Params) == 0 {
+			return false
+		}
+		okAll, n := true, 0
+		allInstrs(cal, func(in ssa.Instruction) {
+			ret, ok := in.(*ssa.Return)
+			if !ok || len(ret.Results) != 1 {
+				return
+			}
+			n++
+			if isConstInt(ret.Results[0], 0) {
+				return
+			}
+			guarded := false
+			for _, cm := range cmpsAt(ret.Block()) {
+				if cm.Op == token.NEQ && isNilConst(cm.Y) {
+					if _, g := loadedField(cm.X); g != nil && sameField(g, f) {
+						guarded = true
+					}
+				}
+			}
+			if !guarded {
+				okAll = false
+			}
+		})
+		return okAll && n > 0
+	}
+	guardedAt0 := guardedAt
+	guardedAt = func(b *ssa.BasicBlock, use ssa.Instruction, v ssa.Value, f *types.Var) bool {
+		if guardedAt0(b, use, v, f) {
+			return true
+		}
+		for _, cm := range cmpsAt(b) {
+			call, ok := cm.X.(*ssa.Call)
+			if !ok || !isConstInt(cm.Y, 0) || (cm.Op != token.NEQ && cm.Op != token.GTR) || len(call.Call.Args) == 0 {
+				continue
+			}
+			cal := staticCallee(&call.Call)
+			if !nonzeroImpliesTree(cal, f) {
+				continue
+			}
+			// the call's receiver is the very Map value whose tree pointer v reads
+			base, _ := loadedField(v)
+			recvArg := call.Call.Args[0]
+			same := recvArg == base || sym(v) == sym(recvArg)+"."+f.Name()
+			if a, ok := loadAddr(recvArg); ok && a == base {
+				same = true
+			}
+			if !same {
+				continue
+			}
+			if call.Block().Parent() == use.Block().Parent() && eff.noFieldKillBetween(call, use, f) {
+				return true
 			}
 		}
 		return false
@@ -747,7 +811,7 @@ func runC04(c *Ctx) {
 	}
 	// the map's lookups/updates/deletes descend consistently with iteration order (shared with C01)
 	c.rule("R-ORIENT", 8, "key descents of the underlying tree agree with the in-order orientation; comparator results are tested by sign")
-	c.rule("R-RELINK", 2, "deleting a two-child node re-attaches the successor's subtree")
+	c.rule("R-RELINK", 1, "deleting a two-child node re-attaches the successor's subtree")
 	c.rule("R-SEEK-RESET", 1, "Iter.Seek starts by invalidating the cursor, so a seek past the last key leaves the iterator invalid")
 	if sm := buildStreeModel(c); sm != nil {
 		sm.ruleDescents(c)
@@ -850,6 +914,36 @@ func (m *streeModel) ruleRelink(c *Ctx) {
 		okV := f != nil && sameField(f, m.large) && base == goat
 		c.judge(okV, "R-RELINK", key, st.Pos(), "the removed node's large-side subtree is re-attached in its place", "the link that pointed to the removed minimum is set to "+sym(st.Val)+" instead of the removed node's ."+m.large.Name()+" subtree: keys below the removed node are lost")
 	}
+	// pointer-to-link idiom: link := &root.right; for … { link = &(*link).left }; goat := *link; *link = goat.right
+	allInstrs(fn, func(in ssa.Instruction) {
+		st, ok := in.(*ssa.Store)
+		if !ok {
+			return
+		}
+		if _, isFA := st.Addr.(*ssa.FieldAddr); isFA {
+			return
+		}
+		pt, ok := st.Addr.Type().Underlying().(*types.Pointer)
+		if !ok || !isNamedOrigin(pt.Elem(), m.nodeT) {
+			return
+		}
+		if _, isPtr := pt.Elem().Underlying().(*types.Pointer); !isPtr {
+			return
+		}
+		if _, isAlloc := st.Addr.(*ssa.Alloc); isAlloc {
+			return // a local variable of node-pointer type, not a link of the tree
+		}
+		n++
+		key := fmt.Sprintf("stree.popMinRight:*%s=", ksym(st.Addr))
+		base, f := loadedField(st.Val)
+		// the removed node is what the link pointed to
+		isGoat := false
+		if a, ok := loadAddr(goat); ok && a == st.Addr {
+			isGoat = true
+		}
+		okV := f != nil && sameField(f, m.large) && base == goat && isGoat
+		c.judge(okV, "R-RELINK", key, st.Pos(), "the link that pointed to the removed node now points to its large-side subtree", "the link that pointed to the removed minimum is set to "+sym(st.Val)+" instead of the removed node's ."+m.large.Name()+" subtree: keys below the removed node are lost")
+	})
 	if n == 0 {
 		c.undecided("R-RELINK", "stree.popMinRight", fn.Pos(), "no relinking store found")
 	}
